@@ -10,7 +10,7 @@ for d in sorted(glob.glob(os.path.join(VERIF, 'seeded', '*'))):
     m = json.load(open(mp))
     if only and m['id'] not in only:
         continue
-    if m.get('status') == 'obsolete':
+    if m.get('status') in ('obsolete', 'rejected'):
         continue
     props = [f'C{i:02d}' for i in range(1, 21)] if allp else sorted(set([m['property']] + m.get('caught_by', [])))
     subprocess.call([sys.executable, os.path.join(VERIF, 'tools', 'run_seeded.py'), d, '--props', ','.join(props)],
